@@ -803,6 +803,68 @@ func relatedKey(rng *rand.Rand, k key, maxLen int) key {
 	return toKey(string(b))
 }
 
+var spanLetters = []byte("aest.0-")
+
+// longSpan: a span (no '/') of n bytes over a few letters, so that different spans share prefixes
+func longSpan(rng *rand.Rand, n int) string {
+	b := make([]byte, n)
+	for i := range b {
+		b[i] = spanLetters[rng.Intn(len(spanLetters))]
+		if i < 6 && rng.Intn(3) > 0 {
+			b[i] = "se"[i%2] // common prefix "sesese": differences fall at varying offsets
+		}
+	}
+	return string(b)
+}
+
+// longKey: a flat key or a hierarchical key whose first span is long (5..20 bytes), total length up to ~40
+func longKey(rng *rand.Rand) string {
+	k := longSpan(rng, 5+rng.Intn(16))
+	for n := rng.Intn(4); n > 0 && len(k) < 34; n-- {
+		k += "/" + longSpan(rng, rng.Intn(8))
+	}
+	return k
+}
+
+// longRelated: k with one byte of its first 17 changed, a span cut off, a span added, or '/' moved
+func longRelated(rng *rand.Rand, k string) string {
+	b := []byte(k)
+	switch rng.Intn(6) {
+	case 0, 1:
+		if len(b) > 0 {
+			i := rng.Intn(minInt(len(b), 17))
+			if b[i] != '/' {
+				b[i] = spanLetters[rng.Intn(len(spanLetters))]
+			}
+		}
+	case 2:
+		if i := strings.IndexByte(k, '/'); i >= 0 {
+			b = b[:i] // the flat key that is the first span
+		} else {
+			b = append(b, []byte("/"+longSpan(rng, rng.Intn(5)))...)
+		}
+	case 3:
+		b = append(b, []byte("/"+longSpan(rng, 1+rng.Intn(6)))...)
+	case 4:
+		if i := strings.IndexByte(k, '/'); i > 0 && i+1 < len(b) {
+			b[i], b[i+1] = b[i+1], b[i] // first span one byte longer
+		}
+	default:
+		return longKey(rng)
+	}
+	if len(b) > 44 {
+		b = b[:44]
+	}
+	return string(b)
+}
+
+func minInt(a, b int) int {
+	if a < b {
+		return a
+	}
+	return b
+}
+
 func cmdTable(args []string) int {
 	fs := flag.NewFlagSet("table", flag.ExitOnError)
 	in := fs.String("in", "", "rows exported by TLC")
@@ -831,6 +893,8 @@ func cmdTable(args []string) int {
 	}
 	cm := kv.OxiaSlashSpanComparer
 	dc := pebble.DefaultComparer
+	prev := key{} // third key of the recorded triple: the right key of the previous row
+	mismatchDumped := 0
 	err = readLines(*in, func(line []byte) error {
 		var r row
 		if err := json.Unmarshal(line, &r); err != nil {
@@ -838,10 +902,14 @@ func cmdTable(args []string) int {
 		}
 		a, b := []byte(r.A.s()), []byte(r.B.s())
 		res.Rows++
+		third := prev
+		prev = r.B
+		differs := false
 		// the comparator: the exported function and the one the engine is given
 		c1, c2 := compare.CompareWithSlash(a, b), cm.Compare(a, b)
 		if c1 != r.Cmp || c2 != r.Cmp {
 			res.CmpBad++
+			differs = true
 			if len(res.CmpMismatches) < 25 {
 				res.CmpMismatches = append(res.CmpMismatches,
 					fmt.Sprintf("Cmp(%q, %q): spec %d, compare.CompareWithSlash %d, engine comparer %d", r.A.s(), r.B.s(), r.Cmp, c1, c2))
@@ -868,9 +936,14 @@ func cmdTable(args []string) int {
 		if abbr(cm.AbbreviatedKey(a)).s() != r.Sabbr.s() {
 			res.AbbrevSame = false
 		}
-		if (res.Rows-1)%stride == 0 || !r.BsepOK && (res.Rows%7 == 0) {
+		// recorded for TLC: an even sample of the table, some of the adversarial pairs, and every pair on which the
+		// real comparator differs from the table (the first 200)
+		if differs {
+			mismatchDumped++
+		}
+		if (res.Rows-1)%stride == 0 || !r.BsepOK && (res.Rows%7 == 0) || differs && mismatchDumped <= 200 {
 			res.RealLines++
-			return enc.Encode(observeComparer(r.A, r.B, key{}))
+			return enc.Encode(observeComparer(r.A, r.B, third))
 		}
 		return nil
 	})
@@ -889,9 +962,21 @@ func cmdTable(args []string) int {
 	// longer random pairs / triples than TLC enumerates
 	rng := rand.New(rand.NewSource(*seed))
 	for i := 0; i < *nrand; i++ {
-		a := randKey(rng, 9)
-		b := relatedKey(rng, a, 9)
-		c := relatedKey(rng, b, 9)
+		var a, b, c key
+		if i%2 == 0 {
+			a = randKey(rng, 9)
+			b = relatedKey(rng, a, 9)
+			c = relatedKey(rng, b, 9)
+		} else {
+			// long keys: long first spans, flat against hierarchical, up to ~40 bytes
+			x := longKey(rng)
+			y := longRelated(rng, x)
+			z := longRelated(rng, y)
+			if rng.Intn(3) == 0 {
+				z = "/" + longSpan(rng, 1+rng.Intn(6))
+			}
+			a, b, c = toKey(x), toKey(y), toKey(z)
+		}
 		res.RealLines++
 		if err := enc.Encode(observeComparer(a, b, c)); err != nil {
 			fmt.Fprintln(os.Stderr, err)
@@ -1091,8 +1176,19 @@ func genKeys(rng *rand.Rand, n int, adv []row) []string {
 			set[k] = true
 		}
 	}
-	for len(set) < n/2 {
+	for len(set) < n/3 {
 		add(randDriveKey(rng))
+	}
+	// long first spans, flat and hierarchical keys mixed (a flat key >= 8 bytes next to keys under a directory
+	// of >= 8 bytes that differs from it within the first bytes)
+	var last string
+	for len(set) < (2*n)/3 {
+		k := longKey(rng)
+		if last != "" && rng.Intn(2) == 0 {
+			k = longRelated(rng, last)
+		}
+		last = k
+		add(k)
 	}
 	prefixes := []string{"", "", "a/", "a", "ab/0/", "./", "0/.", "b/a/"}
 	for len(set) < n && len(adv) > 0 {
